@@ -69,9 +69,10 @@ def short_final_blocks(t, rnd):
         for p in (2, 3, 4):
             n = order << p
             for sig in ("fade", "fade64", "burst"):
-                if n >= 16:
-                    jobs.append({"fe": rnd.choice(FES), "rate": 44100, "bps": rnd.choice([8, 16, 24]), "channels": 1,
-                                 "opts": {"block_size": n, "max_lpc": lpc, "max_po": rnd.choice([6, 8, 15]), "padding": -1, "seektable": "none"},
+                # (several draws each: which predictor order the encoder settles on depends on the material)
+                for rep in range(3 if n >= 16 else 0):
+                    jobs.append({"fe": rnd.choice(FES), "rate": 44100, "bps": [8, 16, 24][rep], "channels": 1,
+                                 "opts": {"block_size": n, "max_lpc": lpc, "max_po": [6, 8, 15][(rep + p) % 3], "padding": -1, "seektable": "none"},
                                  "pcm": {"signal": sig, "seed": rnd.randint(1, 99999), "frames": 3 * n}, "tag": "order-shl-p"})
                 jobs.append({"fe": rnd.choice(FES), "rate": 44100, "bps": rnd.choice([8, 16, 24]), "channels": rnd.choice([1, 2]),
                              "opts": {"block_size": 256, "max_lpc": lpc, "max_po": rnd.choice([6, 8, 15]), "padding": -1, "seektable": "none"},
